@@ -232,6 +232,9 @@ theorem lexemesList_ok : ∀ ts, wfToks ts = true → ∀ l ∈ lexemesList ts, 
     · trivial
     · exact iht hwf.2 l hl
 
+theorem tail_drop {α : Type} (W : List α) (k : Nat) : W.tail.drop k = W.drop (k + 1) := by
+  cases W <;> simp
+
 /-- **stage "group"**: on clean text, `parse_group` returns exactly the tokens written, stops
 behind the closing brace, and has counted exactly the line breaks it passed -/
 theorem group_rt : ∀ ts, ∀ (prev : Option Lex) (more : List Lex) (W : List Str) (ln fuel : Nat),
@@ -239,7 +242,8 @@ theorem group_rt : ∀ ts, ∀ (prev : Option Lex) (more : List Lex) (W : List S
     GoodW prev (lexemesList ts ++ .rb :: more) W → (lexemesList ts).length + 1 ≤ fuel →
     ∃ W' ln', parseGroupF fuel ⟨renderW (lexemesList ts ++ .rb :: more) W, ln⟩
         = .ok (ts, ⟨renderW more W', ln'⟩) ∧ GoodW (some .rb) more W' ∧
-      ln' + nl (renderW more W') = ln + nl (renderW (lexemesList ts ++ .rb :: more) W) := by
+      ln' + nl (renderW more W') = ln + nl (renderW (lexemesList ts ++ .rb :: more) W) ∧
+      W' = W.drop ((lexemesList ts).length + 1) := by
   apply toks_induction
   · -- the closing brace
     intro prev more W ln fuel _ hmore hg hfuel
@@ -248,7 +252,7 @@ theorem group_rt : ∀ ts, ∀ (prev : Option Lex) (more : List Lex) (W : List S
     | zero => simp at hfuel
     | succ fuel =>
       have hreq := required_lex .rb trivial (W.headD []) (renderW more W.tail) hw ln trivial none false
-      refine ⟨W.tail, ln + (W.headD []).count '\n', ?_, hg', ?_⟩
+      refine ⟨W.tail, ln + (W.headD []).count '\n', ?_, hg', ?_, by simp [lexemesList]⟩
       · simp only [lexemesList, List.nil_append, renderW]
         exact parseGroupF_step_rb fuel _ _ _ hreq
       · simp only [lexemesList, List.nil_append, renderW, nl_append, Lex.text, nl]
@@ -265,9 +269,9 @@ theorem group_rt : ∀ ts, ∀ (prev : Option Lex) (more : List Lex) (W : List S
     | succ fuel =>
       have hfol := follows_of_good (simpleLex t) _ _ hg'
       have hreq := required_lex (simpleLex t) hok (W.headD []) _ hw ln hfol none false
-      obtain ⟨W', ln', hp, hgood, hcons⟩ :=
+      obtain ⟨W', ln', hp, hgood, hcons, hdrop⟩ :=
         ih (some (simpleLex t)) more W.tail (ln + (W.headD []).count '\n') fuel hwf.2 hmore hg' (by omega)
-      refine ⟨W', ln', ?_, hgood, ?_⟩
+      refine ⟨W', ln', ?_, hgood, ?_, by rw [hdrop, tail_drop]⟩
       · simp only [renderW]
         rw [parseGroupF_step_lit fuel _ _ _ _ hreq hkind, hp, hmk]
       · rw [hcons]
@@ -297,12 +301,15 @@ theorem group_rt : ∀ ts, ∀ (prev : Option Lex) (more : List Lex) (W : List S
         · exact lexemesList_ok ts hwf.2 x hx
         · trivial
         · exact hmore x hx
-      obtain ⟨W1, ln1, hp1, hgood1, hcons1⟩ :=
+      obtain ⟨W1, ln1, hp1, hgood1, hcons1, hdrop1⟩ :=
         ihb (some .lb) (lexemesList ts ++ .rb :: more) W.tail (ln + (W.headD []).count '\n') fuel
           hwf.1 hmore' hg' (by omega)
-      obtain ⟨W2, ln2, hp2, hgood2, hcons2⟩ :=
+      obtain ⟨W2, ln2, hp2, hgood2, hcons2, hdrop2⟩ :=
         iht (some .rb) more W1 ln1 fuel hwf.2 hmore hgood1 (by omega)
-      refine ⟨W2, ln2, ?_, hgood2, ?_⟩
+      refine ⟨W2, ln2, ?_, hgood2, ?_, ?_⟩
+      rotate_left 2
+      · rw [hdrop2, hdrop1, tail_drop, List.drop_drop, hlen]
+        congr 1; omega
       · simp only [renderW]
         rw [parseGroupF_step_lb fuel _ _ _ hreq, hp1]
         simp only [hp2]
